@@ -564,4 +564,61 @@ theorem foldl_stepθ_mono {m : ℕ} (U : Matrix (Fin m) (Fin m) GQ) {thr thr' : 
     simp only [List.foldl_cons]
     exact ih (stepθ_mono U h h1 h2 s).1 (stepθ_mono U h h1 h2 s).2
 
+/-! ### the cache of a long-lived simulator -/
+
+section Session
+variable {K V A : Type} [DecidableEq K]
+
+theorem cacheOk_fill (compute : K → V) (cache : List (K × V)) (h : CacheOk compute cache)
+    (keys : List K) : CacheOk compute (cacheFill compute cache keys) := by
+  induction keys generalizing cache with
+  | nil => exact h
+  | cons k ks ih =>
+    simp only [cacheFill, List.foldl_cons]
+    apply ih
+    cases hk : cache.lookup k with
+    | some v => exact h
+    | none =>
+      intro k' v' hv
+      by_cases e : k' = k
+      · subst e; simp [List.lookup_cons] at hv; exact hv.symm
+      · have : (k' == k) = false := by simpa using e
+        simp [List.lookup_cons, this] at hv
+        exact h k' v' hv
+
+theorem lookup_fill_of_some (compute : K → V) (cache : List (K × V)) (keys : List K) (k : K) (v : V)
+    (h : cache.lookup k = some v) : (cacheFill compute cache keys).lookup k = some v := by
+  induction keys generalizing cache with
+  | nil => exact h
+  | cons k' ks ih =>
+    simp only [cacheFill, List.foldl_cons]
+    apply ih
+    cases hk : cache.lookup k' with
+    | some v' => exact h
+    | none =>
+      have e : k ≠ k' := by rintro rfl; rw [h] at hk; cases hk
+      have : (k == k') = false := by simpa using e
+      simp [List.lookup_cons, this, h]
+
+/-- after `_evolve_cache(keys)` every requested key is present with the value the backend computes -/
+theorem lookup_fill_of_mem (compute : K → V) (cache : List (K × V)) (h : CacheOk compute cache)
+    (keys : List K) (k : K) (hk : k ∈ keys) :
+    (cacheFill compute cache keys).lookup k = some (compute k) := by
+  induction keys generalizing cache with
+  | nil => cases hk
+  | cons k' ks ih =>
+    have hok : CacheOk compute (cacheFill compute cache [k']) := cacheOk_fill compute cache h [k']
+    have hstep : cacheFill compute cache (k' :: ks) = cacheFill compute (cacheFill compute cache [k']) ks := by
+      simp [cacheFill]
+    rw [hstep]
+    rcases List.mem_cons.mp hk with rfl | hk
+    · apply lookup_fill_of_some
+      simp only [cacheFill, List.foldl_cons, List.foldl_nil]
+      cases hl : cache.lookup k with
+      | some v => simp [hl, h k v hl]
+      | none => simp [List.lookup_cons]
+    · exact ih _ hok hk
+
+end Session
+
 end PM.C03
